@@ -237,6 +237,30 @@ def one_to_many_case(draw, tier="quick"):
     return {"spec": spec, "cmodes": cm, "actions": acts}
 
 
+@st.composite
+def small_buffer_case(draw, tier="quick"):
+    """a buffer of 1-2 elements, an asynchronous consumer and bursts of emissions that are not
+    awaited one by one: every element exactly once, in emission order"""
+    nodes = [{"k": "entry", "u": [], "p": {}, "t": "E"},
+             {"k": "buffer", "u": [0], "p": {"n": draw(st.integers(1, 2))}, "t": "E"}]
+    if draw(st.booleans()):
+        nodes.append({"k": "map", "u": [1], "p": {"f": "inc"}, "t": "E"})
+    nodes.append({"k": "sink", "u": [len(nodes) - 1], "p": {}, "t": None})
+    spec = {"nodes": nodes, "fb": None}
+    cm = {str(len(nodes) - 1): draw(st.sampled_from(["coro", "fut", "aw"]))}
+    emit = st.tuples(st.sampled_from(["emit", "emit", "pemit"]), st.just(0), st.integers(0, 5))
+    fin = st.tuples(st.just("fin"), st.just(0), st.integers(0, 2))
+    turn = st.tuples(st.just("turn"), st.integers(1, 3))
+    acts = [list(a) for a in draw(st.lists(st.one_of(emit, emit, emit, fin, turn), min_size=8,
+                                           max_size=30))]
+    marks = draw(st.lists(st.integers(0, 2), min_size=len(acts), max_size=len(acts)))
+    # ("!": no drain afterwards; with ["turn", k] this places an arrival between the turn in which
+    # a slot is freed and the turn in which a waiting producer would take it)
+    acts = [a + ["!"] if m == 0 and a[0] in ("emit", "fin") else a for a, m in zip(acts, marks)]
+    return {"spec": spec, "cmodes": cm, "actions": acts}
+
+
 PARTS = [Part("schedules", case_strategy, execute, quick=1600, thorough=8000),
+         Part("small-buffer-bursts", small_buffer_case, execute, quick=300, thorough=3000),
          Part("one-to-many-above-coroutines", one_to_many_case, execute, quick=300, thorough=3000),
          Part("map_async-focus", map_async_case, execute, quick=800, thorough=6000)]
